@@ -93,7 +93,7 @@ func rootState(l *lexer) stateFn {
 		l.emit(RuleDefine)
 	case r == ';':
 		l.emit(RuleEnd)
-	case r == ' ', r == '\t', r == '\n': //skip the space
+	case r == ' ', r == '\t', r == '\n', r == '\r': //skip the space
 		l.ignore()
 	// case  alpha , identify
 	case r == '\'':
@@ -336,7 +336,7 @@ func DirectiveUnionState(l *lexer) stateFn {
 	//skip space
 	for {
 		r := l.next()
-		if r != ' ' && r != '\t' && r != '\n' {
+		if r != ' ' && r != '\t' && r != '\n' && r != '\r' {
 			break
 		}
 	}
@@ -511,7 +511,7 @@ func (l *lexer) acceptWord(word string) bool {
 			return false
 		}
 	}
-	if r = l.peek(); r != ' ' && r != '\t' && r != '\n' && r != eof {
+	if r = l.peek(); r != ' ' && r != '\t' && r != '\n' && r != '\r' && r != eof {
 		l.end, l.loc, l.prev = pos, loc, prev
 		return false
 	}
